@@ -3,6 +3,8 @@ package sym
 import (
 	"go/types"
 	"hash/maphash"
+	"sync"
+	"sync/atomic"
 
 	"gosym/term"
 )
@@ -16,17 +18,17 @@ func mix(h, x uint64) uint64 {
 
 func hashString(s string) uint64 { return maphash.String(hseed, s) }
 
-var typeHashes = map[types.Type]uint64{}
+var typeHashes sync.Map
 
 func hashType(t types.Type) uint64 {
 	if t == nil {
 		return 7
 	}
-	if h, ok := typeHashes[t]; ok {
-		return h
+	if h, ok := typeHashes.Load(t); ok {
+		return h.(uint64)
 	}
 	h := hashString(t.String())
-	typeHashes[t] = h
+	typeHashes.Store(t, h)
 	return h
 }
 
@@ -84,8 +86,8 @@ func (e *Engine) hashValue(v Value) uint64 {
 }
 
 func (e *Engine) hashObject(o *Object) uint64 {
-	if o.hash != 0 {
-		return o.hash
+	if h := atomic.LoadUint64(&o.hash); h != 0 {
+		return h
 	}
 	h := uint64(o.Kind) + 100
 	switch o.Kind {
@@ -108,13 +110,13 @@ func (e *Engine) hashObject(o *Object) uint64 {
 	if h == 0 {
 		h = 1
 	}
-	o.hash = h
+	atomic.StoreUint64(&o.hash, h)
 	return h
 }
 
 func (e *Engine) hashFrame(f *Frame) uint64 {
-	if f.hash != 0 {
-		return f.hash
+	if h := atomic.LoadUint64(&f.hash); h != 0 {
+		return h
 	}
 	h := mix(mix(mix(uint64(e.fnID(f.Fn)), uint64(f.Block)), uint64(f.IP)), uint64(len(f.Defers)))
 	for _, r := range f.Regs {
@@ -130,7 +132,7 @@ func (e *Engine) hashFrame(f *Frame) uint64 {
 	if h == 0 {
 		h = 1
 	}
-	f.hash = h
+	atomic.StoreUint64(&f.hash, h)
 	return h
 }
 
@@ -195,13 +197,13 @@ func (e *Engine) objTerm(id ObjID, o *Object) uint64 {
 // corrected for the entries the state's overlay shadows or adds.
 func (e *Engine) heapSum(st *State) uint64 {
 	b := st.base
-	if !b.summed {
+	b.once.Do(func() {
 		var s uint64
 		for id, o := range b.m {
 			s += e.objTerm(id, o)
 		}
-		b.sum, b.summed = s, true
-	}
+		b.sum = s
+	})
 	sum := b.sum
 	for id, o := range st.over {
 		if bo, ok := b.m[id]; ok {
